@@ -103,7 +103,7 @@ def validate_one(args):
 def main(c):
     exe = vlib.build_driver('c01', 'plain')
     scale = 2 if c.tier == 'thorough' else 1
-    nsh = 8 if c.tier == 'thorough' else 3
+    nsh = 4 if c.tier == 'thorough' else 3      # thorough = larger tables per shard (scale 2); the Python reader bounds how many shards are affordable
     base = vlib.scratch_dir('c05')
     try:
         runs = {}
